@@ -93,7 +93,8 @@ def c16_1(c: Ctx) -> None:
             c.fail(u, f'unbounded await in stop(): {U(v)[:70]}', 'stop() can block forever (e.g. on a handler that never finishes)', node=a)
 
 
-@ob('C16.2', 'ORD', 'stop() clears _is_running and shuts the queue down before it waits for the run-loop task, and cancels the task afterwards on every path')
+@ob('C16.2', 'ORD', 'stop() clears _is_running and shuts the queue down before it waits for the run-loop task, and cancels the task afterwards on every path on which it has not finished '
+    '(a further bounded wait after the cancellation — a grace period — is allowed)')
 def c16_2(c: Ctx) -> None:
     u = c.unit(SVC, 'EventBus.stop')
     g = c.cfg(u)
